@@ -82,18 +82,6 @@ Fixpoint f_is_empty (f : forest) : bool :=
   | FCons _ t r => match t with Leaf _ _ => false | NonT _ _ _ => false | Node _ _ g => f_is_empty g end && f_is_empty r
   end.
 
-(* self.empty(recurse=True) = self._exclude(all leaf keys): the nodes and the non-tensor entries, no tensors *)
-Fixpoint skel (f : forest) : forest :=
-  match f with
-  | FNil => FNil
-  | FCons k t r =>
-      match t with
-      | Leaf _ _ => skel r
-      | NonT o d m => FCons k (NonT o d m) (skel r)
-      | Node o m g => FCons k (Node New (set_lock m false) (skel g)) (skel r)
-      end
-  end.
-
 (* td.to(device): new node objects carrying the device, leaves cast (storage kept when nothing moves) *)
 Fixpoint f_to_dev (d : dev) (f : forest) : forest :=
   match f with
@@ -205,22 +193,26 @@ Fixpoint others_leaf (dflt : bool) (others : list tree) (k : string) : res (list
       end)
   end.
 
-(* the operands handed to a nested level: with default=, a missing one is replaced by self.empty(recurse=True)
-   — of THIS level's self, not of the nested item.
-   DEFECT C20-b.  When /repo is repaired (item.empty(recurse=True)): pass the item's (meta, forest) instead of (sm, sf)
-   at the two call sites (apply_items here, flat_items in C20_Sched.v); the stand-in then belongs to the nested level
-   itself, and the hypothesis of C20_apply_spec_partial becomes "no nested tensordict holds a nested tensordict or
-   non-tensor entry under a key of one of its own tensor entries' siblings" — to be re-derived then. *)
-Fixpoint others_node (dflt : bool) (sm : meta) (sf : forest) (others : list tree) (k : string) : res (list tree) :=
+(* the operands handed to a nested level: with default=, a missing one is replaced by item.empty() — the empty
+   stand-in [sub] of the nested entry itself (repair of C20-b; before it: self.empty(recurse=True) of the level's self,
+   in which a key of the nested entry could be found) *)
+Fixpoint others_node (dflt : bool) (sub : tree) (others : list tree) (k : string) : res (list tree) :=
   match others with
   | [] => Ok []
   | ot :: r =>
       bind (oget ot k) (fun x =>
       match x with
-      | Some t => bind (others_node dflt sm sf r k) (fun l => Ok (t :: l))
-      | None => if dflt then bind (others_node dflt sm sf r k) (fun l => Ok (Node New (set_lock sm false) (skel sf) :: l))
+      | Some t => bind (others_node dflt sub r k) (fun l => Ok (t :: l))
+      | None => if dflt then bind (others_node dflt sub r k) (fun l => Ok (sub :: l))
                 else Raised EKey
       end)
+  end.
+(* item.empty(): same metadata, no entry, a new unlocked object *)
+Definition stand_in (item : tree) : tree :=
+  match item with
+  | Node _ m _ => Node New (set_lock m false) FNil
+  | NonT _ d m => NonT New d (set_lock m false)
+  | Leaf s v => Leaf s v
   end.
 
 (* out._get_str(key, default=None) if out is not None else None *)
@@ -239,11 +231,9 @@ Definition result_meta (sm : meta) (names : option dnames) : meta :=
          false.
 Definition make_result (sm : meta) (names : option dnames) : racc := mkAcc New (result_meta sm names) FNil.
 
-(* NonTensorData._apply_nest: out if given, else self.empty(batch_size=…, device=…) — fn is not called.
-   DEFECT C20-f: with out= the entry of out is returned untouched (self's data is not written).  When repaired
-   (a copy of self, or out.update(self)): drop the [Some t => t] branch. *)
-Definition nont_apply (d : Z) (m : meta) (out_k : option tree) : tree :=
-  match out_k with Some t => t | None => NonT New d (result_meta m None) end.
+(* NonTensorData._apply_nest: self.empty(batch_size=…, device=…) — fn is not called; an entry that out= holds under the
+   key is not handed back (repair of C20-f): the caller writes the new entry, which carries self's data *)
+Definition nont_apply (d : Z) (m : meta) (out_k : option tree) : tree := NonT New d (result_meta m None).
 
 (* _validate_value for a tensor collection (checked=False): batch prefix, device cast, dim names.
    Returns the (possibly renamed) container and the (possibly replaced) value. *)
@@ -329,11 +319,18 @@ Definition set_item (r : racc) (k : string) (v : tree) : res racc :=
       match d, v1 with
       | Leaf s _, Leaf _ x => Ok (mkAcc (r_obj r1) (r_meta r1) (fset (r_f r1) k (Leaf s x)))    (* dest.copy_(value) *)
       | Leaf _ _, _ => Raised EValue
-      | NonT od _ dm, NonT _ vp _ =>
-          (* dest.update(value, inplace=True): self.data = value.data (the same payload, unless out= supplied the value).
-             DEFECT C20-c: the lock refuses self.data = data although nothing changes.  When repaired (the write is
-             skipped for an untouched non-tensor entry): replace [Raised EValue] by [Ok r1]. *)
-          if m_lock dm then Raised EValue else Ok (mkAcc (r_obj r1) (r_meta r1) (fset (r_f r1) k (NonT od vp dm)))
+      | NonT od _ dm, NonT ov vp _ =>
+          (* dest.update(value, inplace=True): nothing to do when value carries dest's own data object (a copy made by
+             NonTensorData._apply_nest, or dest itself) — also under a lock (repair of C20-c); else self.data = value.data,
+             which a lock refuses *)
+          let own := match ov, od with
+                     | New, _ => true
+                     | Old b, Old a => Z.eqb a b
+                     | _, _ => false
+                     end in
+          if own then Ok (mkAcc (r_obj r1) (r_meta r1) (fset (r_f r1) k (NonT od vp dm)))
+          else if m_lock dm then Unmodelled
+          else Ok (mkAcc (r_obj r1) (r_meta r1) (fset (r_f r1) k (NonT od vp dm)))
       | NonT _ _ _, Leaf New _ => Raised EValue            (* a tensor returned by fn over a non-tensor entry *)
       | NonT _ _ _, _ => Unmodelled                        (* an entry of out= of another kind handed back for a non-tensor entry *)
       | Node od _ _, Node ov _ _ =>
@@ -389,9 +386,7 @@ Fixpoint apply_items (con : bool) (prefix : list string) (sm : meta) (sf : fores
   | FCons k item rest =>
       let trsf : res (option tree) :=
         if negb con && negb (o_is_leaf o (kind_of item)) then
-          (* self.empty(recurse=True) is taken from self as it is NOW (already written entries when inplace) *)
-          let cur := match acc with Some a => if o_inplace o then a else mkAcc New sm sf | None => mkAcc New sm sf end in
-          bind (others_node (o_default o) (r_meta cur) (r_f cur) others k) (fun others' =>
+          bind (others_node (o_default o) (stand_in item) others k) (fun others' =>
           (* out._get_str(key): out is the object being written (device rewrite, adopted names included) *)
           let out_now := match out, acc with
                          | Some _, Some a => if o_inplace o then out else Some (acc_tree a)
